@@ -72,6 +72,7 @@ type fnExec struct {
 	strIDs   map[string]int
 	wfSeen     map[int]bool
 	modelNames map[string]string // defined name -> readable term, for model output
+	unroll     int             // >0: loops are unrolled this many times instead of cut (bounded fall-back)
 	lastRes    map[string]Val  // result of the most recent call per callee (ghost lastBool)
 	caseSub    map[*Term]*Term // case split in force while building a query
 	caseAssert *Term
@@ -559,6 +560,7 @@ type inEdge struct {
 	from *ssa.BasicBlock
 	cond *Term
 	st   *State
+	phis map[*ssa.Phi]Val // phi values fixed when the edge was taken (unrolled loops), nil otherwise
 }
 
 func (x *fnExec) newFrame(fn *ssa.Function, args []Val, st *State, depth int) *frame {
@@ -581,130 +583,298 @@ func (x *fnExec) runFunc(fr *frame, st *State) []retEdge {
 	if len(fn.Blocks) == 0 {
 		return nil
 	}
+	if x.unroll > 0 && fr.depth == 0 && !fr.inline {
+		return x.runFuncUnrolled(fr, st)
+	}
 	order := rpo(fn)
 	in := map[*ssa.BasicBlock][]inEdge{}
-	in[fn.Blocks[0]] = []inEdge{{nil, st.pc, st}}
+	in[fn.Blocks[0]] = []inEdge{{from: nil, cond: st.pc, st: st}}
 	var rets []retEdge
+	route := func(from, to *ssa.BasicBlock, cond *Term, s *State) {
+		x.edge(fr, in, from, to, cond, s, &rets)
+	}
 	for _, b := range order {
 		edges := in[b]
 		if len(edges) == 0 {
 			continue // unreachable
 		}
 		if fr.depth == 0 && !fr.inline && len(edges) >= 2 && len(edges) <= 6 && fr.loops[b] == nil && onlyPhisAndReturn(b) {
-			// a block that only returns is executed once per incoming path: the postconditions are then checked
-			// path by path, without the nested choices a merged state would put into every term
-			if fr.depth == 0 {
-				x.blkMarks = append(x.blkMarks, blkMark{x.seq + 1, b})
+			x.returnPerPath(fr, b, edges, &rets)
+			continue
+		}
+		x.execBlock(fr, b, edges, route, &rets, true)
+	}
+	return rets
+}
+
+// returnPerPath executes a block that only returns once per incoming path: the postconditions are then checked path by
+// path, without the nested choices a merged state would put into every term.
+func (x *fnExec) returnPerPath(fr *frame, b *ssa.BasicBlock, edges []inEdge, rets *[]retEdge) {
+	if fr.depth == 0 {
+		x.blkMarks = append(x.blkMarks, blkMark{x.seq + 1, b})
+	}
+	for _, e := range edges {
+		if e.cond == False {
+			continue
+		}
+		cur := e.st.clone()
+		cur.pc = e.cond
+		idx := predIndex(b, e.from)
+		var ret *ssa.Return
+		for _, instr := range b.Instrs {
+			switch t := instr.(type) {
+			case *ssa.Phi:
+				if e.phis != nil {
+					if v, ok := e.phis[t]; ok {
+						fr.env[t] = v
+						continue
+					}
+				}
+				fr.env[t] = x.val(fr, t.Edges[idx])
+			case *ssa.Return:
+				ret = t
 			}
-			for _, e := range edges {
-				if e.cond == False {
+		}
+		var rv Val
+		if len(ret.Results) == 1 {
+			rv = x.val(fr, ret.Results[0])
+		} else {
+			rv = Val{K: VTuple}
+			for _, r := range ret.Results {
+				rv.Fs = append(rv.Fs, x.val(fr, r))
+			}
+		}
+		x.atReturn(fr, cur, ret, rv)
+		*rets = append(*rets, retEdge{cur.pc, cur, rv, len(*rets), b})
+	}
+}
+
+// execBlock merges the incoming edges of b, evaluates its phis and executes its instructions; control transfers are
+// handed to route.
+func (x *fnExec) execBlock(fr *frame, b *ssa.BasicBlock, edges []inEdge, route func(from, to *ssa.BasicBlock, cond *Term, s *State), rets *[]retEdge, cutLoops bool) {
+	var conds []*Term
+	var sts []*State
+	for _, e := range edges {
+		conds = append(conds, e.cond)
+		sts = append(sts, e.st)
+	}
+	cur := mergeStates(conds, sts)
+	if cur.pc == False {
+		return
+	}
+	if fr.depth == 0 {
+		x.blkMarks = append(x.blkMarks, blkMark{x.seq + 1, b})
+	}
+	// phis: all evaluated on the incoming values before any is assigned
+	li := fr.loops[b]
+	newPhis := map[*ssa.Phi]Val{}
+	for _, instr := range b.Instrs {
+		phi, ok := instr.(*ssa.Phi)
+		if !ok {
+			break
+		}
+		var v Val
+		first := true
+		for i := len(edges) - 1; i >= 0; i-- {
+			e := edges[i]
+			var ev Val
+			if pv, have := e.phis[phi]; have {
+				ev = pv
+			} else {
+				ev = x.val(fr, phi.Edges[predIndex(b, e.from)])
+			}
+			if first {
+				v = ev
+				first = false
+			} else {
+				v = iteVal(e.cond, ev, v)
+			}
+		}
+		newPhis[phi] = v
+	}
+	for phi, v := range newPhis {
+		fr.env[phi] = v
+	}
+	if li != nil && cutLoops {
+		x.loopHeader(fr, li, cur, edges)
+	}
+	ended := false
+	for _, instr := range b.Instrs {
+		if _, ok := instr.(*ssa.Phi); ok {
+			continue
+		}
+		switch t := instr.(type) {
+		case *ssa.If:
+			c := x.val(fr, t.Cond).T
+			route(b, b.Succs[0], And(cur.pc, c), cur)
+			route(b, b.Succs[1], And(cur.pc, Not(c)), cur)
+			ended = true
+		case *ssa.Jump:
+			route(b, b.Succs[0], cur.pc, cur)
+			ended = true
+		case *ssa.Return:
+			var rv Val
+			if len(t.Results) == 1 {
+				rv = x.val(fr, t.Results[0])
+			} else {
+				rv = Val{K: VTuple}
+				for _, r := range t.Results {
+					rv.Fs = append(rv.Fs, x.val(fr, r))
+				}
+			}
+			x.atReturn(fr, cur, t, rv)
+			*rets = append(*rets, retEdge{cur.pc, cur, rv, len(*rets), b})
+			ended = true
+		case *ssa.Panic:
+			if fr.safety {
+				x.obligation(cur, funcKey(x.top)+":safe#panic", "safe", "panic in "+funcKey(fr.fn)+" at "+x.P.Fset.Position(t.Pos()).String(), nil, False, nil, "")
+			}
+			ended = true
+		default:
+			x.instr(fr, cur, instr)
+			if cur.pc == False {
+				ended = true
+			}
+		}
+		if ended {
+			break
+		}
+	}
+}
+
+// runFuncUnrolled executes fn with every loop unrolled x.unroll times instead of cut by an invariant: paths that need
+// more iterations are not explored, every explored path is exact. Used only as a fall-back for functions whose loop
+// invariants can no longer be bound to the code; loops must not be nested.
+func (x *fnExec) runFuncUnrolled(fr *frame, st *State) []retEdge {
+	fn := fr.fn
+	for h, li := range fr.loops {
+		for b := range li.body {
+			if b != h && fr.loops[b] != nil {
+				panic("bounded fall-back: nested loops in " + funcKey(fn))
+			}
+		}
+	}
+	order := rpo(fn)
+	in := map[*ssa.BasicBlock][]inEdge{}
+	in[fn.Blocks[0]] = []inEdge{{from: nil, cond: st.pc, st: st}}
+	var rets []retEdge
+	done := map[*ssa.BasicBlock]bool{}
+	plain := func(from, to *ssa.BasicBlock, cond *Term, s *State) {
+		if cond == False {
+			return
+		}
+		in[to] = append(in[to], inEdge{from: from, cond: cond, st: s.clone()})
+	}
+	for _, b := range order {
+		if done[b] {
+			continue
+		}
+		edges := in[b]
+		if len(edges) == 0 {
+			continue
+		}
+		li := fr.loops[b]
+		if li == nil {
+			if len(edges) >= 2 && len(edges) <= 8 && onlyPhisAndReturn(b) {
+				x.returnPerPath(fr, b, edges, &rets)
+			} else {
+				x.execBlock(fr, b, edges, plain, &rets, false)
+			}
+			continue
+		}
+		// a loop: iterate its body, in reverse post-order, x.unroll+1 times
+		var body []*ssa.BasicBlock
+		for _, ob := range order {
+			if li.body[ob] {
+				body = append(body, ob)
+				done[ob] = true
+			}
+		}
+		var defined []ssa.Value
+		for _, ob := range body {
+			for _, instr := range ob.Instrs {
+				if v, ok := instr.(ssa.Value); ok {
+					defined = append(defined, v)
+				}
+			}
+		}
+		type exitEdge struct {
+			to   *ssa.BasicBlock
+			e    inEdge
+			snap map[ssa.Value]Val
+		}
+		var exits []exitEdge
+		iter := edges
+		for k := 0; k <= x.unroll && len(iter) > 0; k++ {
+			lin := map[*ssa.BasicBlock][]inEdge{b: iter}
+			var next []inEdge
+			route := func(from, to *ssa.BasicBlock, cond *Term, s *State) {
+				if cond == False {
+					return
+				}
+				switch {
+				case to == b:
+					// back edge: the header phis of the next iteration take the values this iteration computed
+					ph := map[*ssa.Phi]Val{}
+					idx := predIndex(b, from)
+					for _, instr := range b.Instrs {
+						if phi, ok := instr.(*ssa.Phi); ok {
+							ph[phi] = x.val(fr, phi.Edges[idx])
+						} else {
+							break
+						}
+					}
+					next = append(next, inEdge{from: from, cond: cond, st: s.clone(), phis: ph})
+				case !li.body[to]:
+					snap := map[ssa.Value]Val{}
+					for _, v := range defined {
+						if val, ok := fr.env[v]; ok {
+							snap[v] = val
+						}
+					}
+					// phis of the exit target read their operands on this edge now
+					ph := map[*ssa.Phi]Val{}
+					idx := predIndex(to, from)
+					for _, instr := range to.Instrs {
+						if phi, ok := instr.(*ssa.Phi); ok {
+							ph[phi] = x.val(fr, phi.Edges[idx])
+						} else {
+							break
+						}
+					}
+					exits = append(exits, exitEdge{to, inEdge{from: from, cond: cond, st: s.clone(), phis: ph}, snap})
+				default:
+					lin[to] = append(lin[to], inEdge{from: from, cond: cond, st: s.clone()})
+				}
+			}
+			for _, ob := range body {
+				if es := lin[ob]; len(es) > 0 {
+					x.execBlock(fr, ob, es, route, &rets, false)
+				}
+			}
+			iter = next
+		}
+		// values defined in the loop, as seen after it: chosen by the exit that was taken
+		for _, v := range defined {
+			var mv Val
+			have := false
+			for i := len(exits) - 1; i >= 0; i-- {
+				sv, ok := exits[i].snap[v]
+				if !ok {
 					continue
 				}
-				cur := e.st.clone()
-				cur.pc = e.cond
-				idx := predIndex(b, e.from)
-				var ret *ssa.Return
-				for _, instr := range b.Instrs {
-					switch t := instr.(type) {
-					case *ssa.Phi:
-						fr.env[t] = x.val(fr, t.Edges[idx])
-					case *ssa.Return:
-						ret = t
-					}
-				}
-				var rv Val
-				if len(ret.Results) == 1 {
-					rv = x.val(fr, ret.Results[0])
+				if !have {
+					mv, have = sv, true
 				} else {
-					rv = Val{K: VTuple}
-					for _, r := range ret.Results {
-						rv.Fs = append(rv.Fs, x.val(fr, r))
-					}
-				}
-				x.atReturn(fr, cur, ret, rv)
-				rets = append(rets, retEdge{cur.pc, cur, rv, len(rets), b})
-			}
-			continue
-		}
-		var conds []*Term
-		var sts []*State
-		for _, e := range edges {
-			conds = append(conds, e.cond)
-			sts = append(sts, e.st)
-		}
-		cur := mergeStates(conds, sts)
-		if cur.pc == False {
-			continue
-		}
-		if fr.depth == 0 {
-			x.blkMarks = append(x.blkMarks, blkMark{x.seq + 1, b})
-		}
-		// phis
-		li := fr.loops[b]
-		for _, instr := range b.Instrs {
-			phi, ok := instr.(*ssa.Phi)
-			if !ok {
-				break
-			}
-			var v Val
-			first := true
-			for i := len(edges) - 1; i >= 0; i-- {
-				e := edges[i]
-				idx := predIndex(b, e.from)
-				ev := x.val(fr, phi.Edges[idx])
-				if first {
-					v = ev
-					first = false
-				} else {
-					v = iteVal(e.cond, ev, v)
+					mv = iteVal(exits[i].e.cond, sv, mv)
 				}
 			}
-			fr.env[phi] = v
+			if have {
+				fr.env[v] = mv
+			}
 		}
-		if li != nil {
-			x.loopHeader(fr, li, cur, edges)
-		}
-		ended := false
-		for _, instr := range b.Instrs {
-			if _, ok := instr.(*ssa.Phi); ok {
-				continue
-			}
-			switch t := instr.(type) {
-			case *ssa.If:
-				c := x.val(fr, t.Cond).T
-				x.edge(fr, in, b, b.Succs[0], And(cur.pc, c), cur, &rets)
-				x.edge(fr, in, b, b.Succs[1], And(cur.pc, Not(c)), cur, &rets)
-				ended = true
-			case *ssa.Jump:
-				x.edge(fr, in, b, b.Succs[0], cur.pc, cur, &rets)
-				ended = true
-			case *ssa.Return:
-				var rv Val
-				if len(t.Results) == 1 {
-					rv = x.val(fr, t.Results[0])
-				} else {
-					rv = Val{K: VTuple}
-					for _, r := range t.Results {
-						rv.Fs = append(rv.Fs, x.val(fr, r))
-					}
-				}
-				x.atReturn(fr, cur, t, rv)
-				rets = append(rets, retEdge{cur.pc, cur, rv, len(rets), b})
-				ended = true
-			case *ssa.Panic:
-				if fr.safety {
-					x.obligation(cur, funcKey(x.top)+":safe#panic", "safe", "panic in "+funcKey(fn)+" at "+x.P.Fset.Position(t.Pos()).String(), nil, False, nil, "")
-				}
-				ended = true
-			default:
-				x.instr(fr, cur, instr)
-				if cur.pc == False {
-					ended = true
-				}
-			}
-			if ended {
-				break
-			}
+		for _, ex := range exits {
+			in[ex.to] = append(in[ex.to], ex.e)
 		}
 	}
 	return rets
@@ -741,7 +911,7 @@ func (x *fnExec) edge(fr *frame, in map[*ssa.BasicBlock][]inEdge, from, to *ssa.
 		x.loopBackEdge(fr, li, from, cond, st)
 		return
 	}
-	in[to] = append(in[to], inEdge{from, cond, st.clone()})
+	in[to] = append(in[to], inEdge{from: from, cond: cond, st: st.clone()})
 }
 
 // ---------- instructions ----------
